@@ -591,19 +591,26 @@ theorem table_ordering :
     Tables.ordURIRef < Tables.ordGenid ∧ Tables.ordGenid < Tables.ordRDFLibGenid ∧
     Tables.ordRDFLibGenid < Tables.ordLiteral := by decide
 
-/-- the model's `_quote_encode` agrees with the escapes probed from the live `Literal._quote_encode`
-    on every probed character (short quoting; long quoting with the character in the middle) -/
-theorem table_short_escapes :
-    Tables.probed.all (fun c => c == '\n' ||
-      shortEncode [c, 'x'] == (alookupS c Tables.shortEscapes).getD [c] ++ ['x']) = true := by
-  decide +kernel
+/-- the written forms probed from the live `Literal._quote_encode` (one per character, short and long quoting) are
+    well-formed: each is read back to its character by the decoder whatever follows, the backslash is never raw, and in
+    a short-quoted string neither are the quote and CR.  This is all the round-trip theorems use of the tables, so a
+    legal change of spelling (raw TAB ↦ `\t`, …) re-proves by itself. -/
+theorem table_short_wf : wfTab Tables.shortEscapes = true ∧
+    escWith Tables.shortEscapes '"' ≠ ['"'] ∧ escWith Tables.shortEscapes '\r' ≠ ['\r'] :=
+  ⟨short_table_wf, short_table_raw⟩
 
-theorem table_long_escapes :
-    Tables.probed.all (fun c =>
-      longEncode ['\n', c, 'x'] == '\n' :: (alookupS c Tables.longEscapes).getD [c] ++ ['x']) = true := by
-  decide +kernel
+theorem table_long_wf : wfTab Tables.longEscapes = true := long_table_wf
 
-/-- … and on long-quoted texts ending in runs of quotes / backslashes (the final-quote rule) -/
+/-- ⊢ decode ∘ `_quote_encode` = id for every string and ANY well-formed table of written forms -/
+def Statement_escape_roundtrip : Prop :=
+  ∀ (T : List (Char × Str)), wfTab T = true → ∀ s : Str,
+    decodeEsc (shortEncodeT T s) = some s ∧ decodeEsc (longEncodeT T s) = some s
+
+theorem escape_roundtrip : Statement_escape_roundtrip :=
+  fun _ hT s => ⟨decode_shortEncodeT hT s, decode_longEncodeT hT s⟩
+
+/-- the model (with the regenerated tables) writes what the live `_quote_encode` writes on long-quoted texts ending in
+    runs of quotes / backslashes (the triple-quote and final-quote rules, which are not per-character) -/
 theorem table_long_tails :
     Tables.longTails.all (fun p => longEncode p.1 == p.2) = true := by
   decide +kernel
